@@ -1255,9 +1255,14 @@ func c19RunSessions(c *lib.Ctx) {
 	}
 	// baseline gate: when the snapshot of an EMPTY session cannot be reloaded every other session
 	// fails for that same reason; report the one cause only
-	base0 := c19RunSession(filepath.Join(c.OutDir, "sessions-baseline"), &sessions[0])
+	// the scratch directories belong to THIS process: a second check of the same property running in
+	// the same verif root (another seed, a mutant) must not be able to remove or overwrite them
+	base := filepath.Join(c.OutDir, fmt.Sprintf("sessions-%d", os.Getpid()))
+	_ = os.RemoveAll(base)
+	defer func() { _ = os.RemoveAll(base) }()
+	base0 := c19RunSession(filepath.Join(base, "baseline"), &sessions[0])
 	if base0.Flaky != "" {
-		base0 = c19RunSessionAlone(filepath.Join(c.OutDir, "sessions-baseline"), &sessions[0])
+		base0 = c19RunSessionAlone(filepath.Join(base, "baseline"), &sessions[0])
 	}
 	if base0.Invalid == "" && base0.Aspect != "" {
 		c.Ev.Case("s:empty", false)
@@ -1266,8 +1271,6 @@ func c19RunSessions(c *lib.Ctx) {
 		return
 	}
 	results := make([]c19SessResult, len(sessions))
-	base := filepath.Join(c.OutDir, "sessions")
-	_ = os.RemoveAll(base)
 	var wg sync.WaitGroup
 	sem := make(chan struct{}, 8)
 	for i := range sessions {
@@ -1495,7 +1498,8 @@ func c19ReplaySession(c *lib.Ctx, rec map[string]any) {
 		fmt.Println("replay file has no usable session:", err)
 		return
 	}
-	dir := filepath.Join(c.OutDir, "replay-session")
+	dir := filepath.Join(c.OutDir, fmt.Sprintf("replay-session-%d", os.Getpid()))
+	defer func() { _ = os.RemoveAll(dir) }()
 	reps := 1
 	if strings.HasPrefix(sess.Cell, "defflavor/order-witness") {
 		reps = 12 // depends on Go's map iteration order
